@@ -111,7 +111,11 @@ example : (rowRc true (rowOfString "-AC--G".toList)).toOption.map gapped = some 
 
 /-- **History theorem** (`aln_refines`): for every alignment with well-formed rows and every finite
 sequence of slice / int / rc / take_seqs / take_positions (both polarities) / to_rna / to_dna / `+` /
-get_degapped_relative_to / sample with given locations and motif length / to_type round-trip operations, if the
+get_degapped_relative_to / sample with given locations and motif length / to_type round trip /
+keep-blocks (`gapped_by_map` with a run-length FeatureMap: single span via `IndelMap.__getitem__`,
+several spans via `joined_segments`) / filtered-by-column-mask (`filtered`, `no_degenerates`,
+`omit_gap_pos`: the predicate's verdict per column is given, the classes' handling of the kept
+columns is what is proved equal) operations, if the
 annotatable class completes the history, the rows it then shows are exactly the rows obtained by
 running the same history on the plain gapped strings (which is what the dense class does), and all
 rows are still well formed.  By induction over the operation list. -/
@@ -159,10 +163,28 @@ example : (runV ⟨fromGapped ("A-CG-T".toList.map isGap), SeqWrap.ofString "ACG
       [.slice (some 1) (some 9), .rc, .slice (some 1) none]).toOption.map (fun r => gapped (r.toRow (comp true)))
     = some "-CG-".toList := by decide
 
-/- FULL STATEMENT (not proved): the same history theorem including
-   the `keep` blocks of `filtered()` (multi-span `joined_segments`), and the error clause (both
-   classes raise IndexError together; a negative slice bound below -len is refused by the annotatable
-   class but clamped by the dense one).  Those are covered by the correspondence check and the
-   spec-level differential on both classes. -/
+/-- Keeping blocks of columns (`Aligned.__getitem__(FeatureMap)`): for blocks sorted by start, the
+row displays the blocks of its string joined together. -/
+theorem keep_refines (r r' : Row) (h : RowWF r) (locs : List (Int × Int)) (hs : sortPairs locs = locs)
+    (hr : rowKeep r locs = .ok r') : RowWF r' ∧ gapped r' = denseKeep (gapped r) locs :=
+  rowKeep_spec r r' h locs hs hr
+
+example : (rowKeep (rowOfString "A--CG-T".toList) [(1, 3), (4, 7)]).toOption.map gapped = some "--G-T".toList := by decide
+
+/-- The run-length blocks `filtered()` builds from the per-column verdicts select exactly the columns
+with a positive verdict (so the annotatable class, going through blocks and `joined_segments`, and
+the dense class, taking columns, agree). -/
+theorem filter_blocks_eq_columns (s : List Char) (mask : List Bool) :
+    denseKeep s (maskRuns 0 none mask) = denseFilter s mask := denseKeep_maskRuns s mask
+
+example : (runA true (ofStrings [("s0", "G-ANT".toList), ("s1", "A-CNT".toList)])
+      [.filterMask [true, false, true, false, true], .keep [(0, 1), (2, 3)]]).toOption.map (fun r => showA r.1)
+    = some [("s0", "GT".toList), ("s1", "AT".toList)] := by decide
+
+/- FULL STATEMENT (not proved): the error clause of the history theorem (both classes raise IndexError
+   together; a negative slice bound below -len is refused by the annotatable class but clamped by the
+   dense one), and the evaluation of the column predicates themselves (`AllowedCharacters`, `GapsOk`
+   with its float threshold): in `filterMask` the verdict per column is an input.  Those are covered by
+   the correspondence check and the spec-level differential on both classes. -/
 
 end CogentModel.C03
